@@ -91,7 +91,7 @@ PROPS = {
         # "for any access pattern ... stays bounded / stays readable": a panic or wrapped index inside the policy is a
         # violation of the property itself (finding F3 was one), so overflow/shift/division side obligations count
         "side_is_property": True,
-        "verus": ["c16_policy", "c16_sketch"],
+        "verus": ["c16_policy", "c16_sketch", "c16_entry"],
         "kani": [
             {"repo_crate": "storage", "kind": "complete", "hook_files": ["storage_tiny_lfu_sketch.rs"],
              "harnesses": ["cms_reset_halves_every_counter", "bloom_clear_zeroes_all_words", "cms_increment_touches_only_its_cells_and_saturates"],
@@ -118,6 +118,7 @@ PROPS = {
         ],
         "witness": witness.c16,
         "assumptions": [
+            "c16_entry: the entry handles the storage map hands out -- `VacantEntry::insert` and `OccupiedEntry::remove` of tiny_lfu.rs are proved to queue the message about a key (Insert / Removed) BEFORE they give up the key's entry lock; the scc handle stand-in carries that protocol as the precondition of insert_entry / remove (so the policy sees the messages about one key in the order of the operations on it); struct stand-ins (field subsets) for the two handles",
             "the abstract contract of `Lru` (specs/c16_policy.rs) is ASSUMED by the Verus proof of Policy; the real Lru (raw pointers + HashMap) is checked against every clause only by the bounded exhaustive conformance run (depth 3; Miri at depth 2 in the thorough tier)",
             "remove: impl Fn(&K)->bool is carried as an abstract closure by the Policy proof; the closure production code passes in -- TinyLFUInner::remove_closure -- IS under contract (its body gets a closure contract through a textual signature splice; rule R18 drops the statement gated by the off-by-default feature `tracing_resource`): it answers true only when the map had no entry or the LOCKED entry held a value the listener called unpinned and exactly that entry was removed under the same lock, false only when the locked value was called pinned; an entry may be removed only after the listener's 'not pinned' for the value the handle holds (protocol precondition of the scc entry stand-in). scc::HashMap itself (entry_sync gives an exclusive handle) is an interface stand-in with event predicates",
             "K::clone returns an equal key (axiom_key_clone)",
@@ -137,7 +138,7 @@ PROPS = {
         "kani": [],
         "native": [
             {"name": "store_equals_batches_in_creation_order", "bin": "replay_c10", "crate": "replay", "thorough_seeds": 64, "tiers": ("quick", "thorough"),
-             "bound": "24 directed late-first histories + 4 directed drop-during-panic-unwinding histories + 400 seeded random histories: 1..9 batches of 0..5 operations (wide-column put/delete and key-of-set insert/remove over 1..3 keys x 1..3 elements, so that one batch often stages several operations on one slot), submitted out of creation order from 1..3 threads, 1..4 serializer workers, random serialization delays and physical grouping; after drop the recording store must equal applying the batches in creation order, each exactly once (real code, native execution, thread schedule not controlled)"},
+             "bound": "long manager lifetimes (6 x 40, 3 x 100, 10 x 12 batches in waves, so that committed buffers are recycled and handed out again), 24 directed late-first histories + 4 directed drop-during-panic-unwinding histories + 400 seeded random histories: 1..9 batches of 0..5 operations (wide-column put/delete and key-of-set insert/remove over 1..3 keys x 1..3 elements, so that one batch often stages several operations on one slot), submitted out of creation order from 1..3 threads, 1..4 serializer workers, random serialization delays and physical grouping; after drop the recording store must equal applying the batches in creation order, each exactly once (real code, native execution, thread schedule not controlled)"},
             {"name": "real_backends_behind_the_real_write_manager", "bin": "replay_c10_db", "crate": "replay_db", "release": False, "tiers": ("quick", "thorough"), "thorough_seeds": 6,
              "bound": "the real WriteBehind in front of the REAL RocksDB and Fjall: 11 manager lifetimes per store and seed (mixed traffic, lifetimes that ONLY remove, put-then-remove of a never-stored key across batches of one lifetime, a unit-keyed unit-discriminant column whose encoded key is empty) plus 9 lifetimes of key-of-set traffic (u32 members and a unit-element column whose member encoding is empty; lifetimes that only remove), 1..3 serializer workers; after every lifetime the store is closed, reopened and read through a fresh engine: it must hold exactly the batches applied in creation order"},
         ],
